@@ -54,7 +54,9 @@ Definition corr (c : case) : Z :=
       if f_is_finite (nval n) then
         if bytes_eqb t (fmt_number false 10 (nval n)) && String.eqb u (us_display (nunit n)) then 1 else 0
       else 2
-  | MNum n, IOther => if f_is_finite (nval n) then 0 else 2
+  | MNum n, IOther => if f_is_finite (nval n)
+                      then match nunit n with [] | [(_, 1)] => 0 | _ => 2 end   (* `x / 1unit`, `calc(..)` forms of compound units *)
+                      else 2
   | MNum n, IErr => match nunit n with [] | [(_, 1)] => 0 | _ => 2 end   (* compound units cannot be printed as CSS *)
   | MErr, IErr => 1
   | MKept, IKept | MKept, IErr => 1
